@@ -824,6 +824,10 @@ class netcdf_indexer:
             else:
                 data = data.astype(np.array(add_offset).dtype)
 
+        if not isinstance(data, np.ndarray):
+            # Arithmetic on a 0-d array gives a numpy scalar
+            data = np.asanyarray(data)
+
         return data
 
     @property
